@@ -190,6 +190,46 @@ func (w *World) registerEndpointIntrinsics() {
 		}
 		return tuple(&Pointer{obj: e.newObject(ht, &StructVal{hf}, "response")}, nilIface)
 	}
+	// http.Get against a harness-defined endpoint (backend logout)
+	I["net/http.Get"] = func(e *Exec, fn *ssa.Function, a []Value) Value {
+		ut := a[0].(*Term)
+		es, ok := ut.strVal()
+		if !ok && ut.op == "str.++" && len(ut.args) > 0 {
+			es, ok = ut.args[0].strVal() // constant endpoint followed by a symbolic query
+		}
+		if !ok && (ut.op == "str.replace_all" || ut.op == "str.replace") && len(ut.args) == 3 {
+			es, ok = ut.args[0].strVal() // a placeholder substituted into a constant URL
+		}
+		if !ok {
+			e.unsupported("http.Get of a symbolic URL")
+		}
+		base := es
+		if i := strings.Index(base, "/x"); i >= 0 {
+			base = base[:i+2] // endpoints are <host>/x; the harness may append a query
+		}
+		ep, ok := e.hidden["http:"+base].(*httpEndpoint)
+		if !ok {
+			e.unsupported("http.Get of an endpoint the harness did not define: %s", es)
+		}
+		if ep.down {
+			return tuple(&Pointer{}, e.newError("dial tcp: connection refused"))
+		}
+		ht := e.errorsPkgType("net/http", "Response")
+		hv := e.zero(ht).(*StructVal)
+		hf := make([]Value, len(hv.fields))
+		copy(hf, hv.fields)
+		hst := under(ht).(*types.Struct)
+		bt := e.errorsPkgType("crypto/sha256", "digest")
+		for i := 0; i < hst.NumFields(); i++ {
+			switch hst.Field(i).Name() {
+			case "StatusCode":
+				hf[i] = ep.status
+			case "Body":
+				hf[i] = &IfaceVal{typ: types.NewPointer(bt), val: &OpaqueVal{name: "http.body", data: ep}}
+			}
+		}
+		return tuple(&Pointer{obj: e.newObject(ht, &StructVal{hf}, "response")}, nilIface)
+	}
 	I["io.ReadAll"] = func(e *Exec, fn *ssa.Function, a []Value) Value {
 		iv, _ := a[0].(*IfaceVal)
 		if iv != nil {
